@@ -25,7 +25,7 @@ CONSTANTS
     Ops,            \* subset of {"swap", "write_motl", "write_emmotl", "load", "adopt"} enabled in this model
     SwapPos,        \* column positions offered to SwapCols
     MaxDepth,
-    EmitMode,       \* "none" | "tr" | "hist"
+    EmitMode,       \* "none" | "hist" (complete behaviours through the hist variable)
     Writer          \* "byname" | "positional"
 
 VARIABLES tbl, disk, src, mem, op, d, hist
@@ -85,13 +85,11 @@ HoleCode == 1000000
 VJ(v) == CASE v.k = "raw" -> v.t [] v.k = "f32" -> 0 - v.t [] v.k = "zero" -> 0 [] OTHER -> HoleCode
 TJ(T) == [order |-> T.order, cells |-> [r \in 1..NRows(T) |-> [i \in 1..Len(T.cells[r]) |-> VJ(T.cells[r][i])]]]
 DJ(D) == [dims |-> D.dims, mode |-> D.mode, payload |-> [q \in 1..Len(D.payload) |-> VJ(D.payload[q])]]
-SJ == [tbl |-> TJ(tbl), disk |-> DJ(disk), mem |-> TJ(mem)]
-SJn == [tbl |-> TJ(tbl'), disk |-> DJ(disk'), mem |-> TJ(mem')]
 
 -----------------------------------------------------------------------------
 Step(o) == /\ op' = o
            /\ d' = d + 1
-           /\ hist' = IF EmitMode = "hist" THEN Append(hist, [op |-> o, post |-> SJn]) ELSE hist
+           /\ hist' = IF EmitMode = "hist" THEN Append(hist, [op |-> o, tbl |-> tbl', disk |-> disk', mem |-> mem']) ELSE hist
 
 \* re-building the list from the same table with two columns exchanged (generates every column order)
 SwapCols(i, j) == /\ "swap" \in Ops
@@ -127,7 +125,7 @@ Init == /\ tbl \in InitTables
         /\ mem = NoTable
         /\ op = [name |-> "init"]
         /\ d = 0
-        /\ hist = IF EmitMode = "hist" THEN <<[op |-> [name |-> "init"], post |-> SJ]>> ELSE <<>>
+        /\ hist = IF EmitMode = "hist" THEN <<[op |-> [name |-> "init"], tbl |-> tbl, disk |-> disk, mem |-> mem]>> ELSE <<>>
 
 Next == /\ d < MaxDepth
         /\ \/ \E i, j \in SwapPos : i < j /\ SwapCols(i, j)
@@ -179,12 +177,24 @@ TypeOK == /\ IsTable(tbl)
 
 -----------------------------------------------------------------------------
 \* emission
-EmitTR == \/ EmitMode # "tr"
-          \/ PrintT(ToJson([d |-> d, pre |-> SJ, op |-> op', post |-> SJn]))
+\* transition emission (ACTION_CONSTRAINT EmitStep), restricted to what each step reads and writes;
+\* writes over an existing file are pruned (the write action does not read the file)
+NoRewrite == ~(IsWrite(op') /\ disk # NoFile)
+PreJ(o) == CASE IsWrite(o) -> [tbl |-> TJ(tbl)]
+             [] o.name = "load" -> [disk |-> DJ(disk)]
+             [] o.name = "swap" -> [tbl |-> TJ(tbl)]
+             [] OTHER -> [mem |-> TJ(mem)]
+PostJ(o) == CASE IsWrite(o) -> [disk |-> DJ(disk'), tbl_unchanged |-> (tbl' = tbl)]
+              [] o.name = "load" -> [mem |-> TJ(mem')]
+              [] OTHER -> [tbl |-> TJ(tbl')]
+EmitStep == /\ NoRewrite
+            /\ PrintT(ToJson([pre |-> PreJ(op'), op |-> op', post |-> PostJ(op')]))
 
 EmitHist == \/ EmitMode # "hist"
             \/ d < MaxDepth
-            \/ PrintT(ToJson([hist |-> hist]))
+            \/ PrintT(ToJson([hist |-> [i \in 1..Len(hist) |->
+                    [op |-> hist[i].op,
+                     post |-> [tbl |-> TJ(hist[i].tbl), disk |-> DJ(hist[i].disk), mem |-> TJ(hist[i].mem)]]]]))
 
 View == <<tbl, disk, src, mem>>
 =============================================================================
